@@ -595,9 +595,10 @@ _c("C04",
    "of Structure.__setattr__ re-translated from the source (Gen/StructNoneFields.v): an instantiated instance of an immutable class "
    "refuses every assignment under EVERY combination of _enable_undefined_value/_ignore_none/_additional_properties/_required and "
    "every finite assignment history leaves both components unchanged (C04_src_setattr_immutable_options, C04_options_history: "
-   "induction over the history); an immutable field holding a value is unchanged by every history of assignments to any keys that "
-   "avoids the one path on which __setattr__ returns before Field.__set__ (C04_immutable_field_history, frame lemma per key), and "
-   "on that path the marker is added (C04_none_marker_path_changes, C04_immutable_field_statement_refuted: finding F23). The "
+   "induction over the history); an immutable field holding a value is unchanged by EVERY history of assignments to any keys "
+   "(C04_immutable_field_history = the full statement, frame lemma per key; C04_src_immutable_field_assignment for the generated "
+   "effect list): the 'ignored None' branch of __setattr__ refuses an explicit None for such a field itself "
+   "(C04_marker_blocked_raises; finding F23, repaired), for other fields the marker is added (C04_none_marker_path_changes). The "
    "implementation is explored over the lattice {ImmutableStructure, immutable fields} x 8 option combinations x 6 provenances "
    "(constructor, pickle, copy, deepcopy, Deserializer, shallow clone) x every key role (required/populated/container/explicit "
    "None/absent/default/undeclared/sunder/_instantiated/_none_fields) x {setattr None/Undefined/same/other/invalid, delattr, delitem}, "
